@@ -93,7 +93,7 @@ def run_case(case):
         ("reverse", lambda: A.reverse(), rev, RA.alphabet | foreign),
         ("invert_operator", lambda: ~A, rev, RA.alphabet | foreign),
     ]
-    if case.get("plain") and len(RA.states) <= 6 and len(RB.states) <= 6:
+    if case.get("plain") and len(RA.states) <= 5 and len(RB.states) <= 5 and len(RA.trans) + len(RB.trans) <= 18:
         # union / concatenate / kleene_star go through state elimination (to_regex): cost explodes on big automata
         checks += [
             ("union", lambda: A.union(B), ref_fa.union(RA, RB), joint | foreign),
